@@ -252,7 +252,8 @@ func (t *Dense) TensorMul(other Tensor, axesA, axesB []int) (retVal *Dense, err 
 	newAxesA := BorrowInts(len(notins) + len(axesA))
 	defer ReturnInts(newAxesA)
 	newAxesA = newAxesA[:0]
-	newAxesA = append(notins, axesA...)
+	newAxesA = append(newAxesA, notins...)
+	newAxesA = append(newAxesA, axesA...)
 	n2 := 1
 	for _, a := range axesA {
 		n2 *= ts[a]
